@@ -47,10 +47,12 @@ package db
 //@ func (a *AggSenderSQLStorage) GetLastSentCertificate
 //@   props C02 C13
 //@   trusted
+//@   modifies nothing
 //@   sqltext "SELECT * FROM certificate_info ORDER BY height DESC LIMIT 1;"
 //@ func (a *AggSenderSQLStorage) GetLastSentCertificateHeaderWithProofIfInError
 //@   props C02 C13
 //@   trusted
+//@   modifies nothing
 //@   sqltext "SELECT aggchain_proof FROM certificate_info WHERE height = $1;"
 //@   consttext "%s ORDER BY height DESC LIMIT 1;"
 //@ func (a *AggSenderSQLStorage) UpdateCertificateStatus
